@@ -4,7 +4,8 @@
 From Coq Require Import List NArith ZArith Bool Arith Lia.
 From StgV Require Import Model.CmdSpec Model.LocatorSpec.
 From StgV Require Import Proofs.CharsProofs Proofs.ReorderProofs Proofs.ReachBase Proofs.ReachStep
-  Proofs.LocatorProofs.
+  Proofs.LocatorProofs Proofs.PickBasics.
+From StgV Require Proofs.WfFrame.
 Import ListNotations.
 Local Open Scope nat_scope.
 
@@ -336,8 +337,8 @@ Proof.
   assert (Hb : w_branch (op_world op) = w_branch w) by congruence.
   assert (Hu1 : w_unmerged (op_world op) = true) by congruence.
   clear Hlf. unfold transact in H.
-  set (t0 := begin_txn op (opts CDisallow true false true true true)) in *.
-  assert (Ht0 : t_opts t0 = opts CDisallow true false true true true) by reflexivity.
+  set (t0 := begin_txn op (opts CDisallow (w_apc (op_world op)) false true true true)) in *.
+  assert (Ht0 : t_opts t0 = opts CDisallow (w_apc (op_world op)) false true true true) by reflexivity.
   assert (Ht0u : t_wt_unmerged t0 = true) by exact Hu1.
   assert (Herr : forall w2 x2, execute (op_world op) (TErr t0) (MUndo n) = (w2, x2) ->
                               x2 <> X0 /\ w_branch w2 = w_branch w /\ w_unmerged w2 = true).
@@ -643,6 +644,23 @@ Section Refuse.
     opened op Hr Hu1. rewrite Hu1. exact Hr.
   Qed.
 
+  (* pick without --noapply tests for a clean work tree and index before anything else *)
+  Lemma run_pick_refused : forall lower_s src nm, refused w (run_pick lower_s w src nm false).
+  Proof.
+    intros lower_s src nm.
+    assert (Hd : forall op, open_stack PAuto w = Some op -> negb false && dirty (op_world op) = false -> False).
+    { intros op Hop Hdirty. destruct (refused_open _ _ Hop ltac:(discriminate)) as [_ Hu1].
+      unfold dirty in Hdirty. rewrite Hu1, orb_true_r in Hdirty. discriminate. }
+    destruct (run_pick_case lower_s w src nm false) as
+      [_|_|op Eo|op given o Eo _ Ed _ _|op given o pn0 Eo _ Ed _ _ _|op given o pn0 pn c par Eo _ Ed _ _ _ _ _ _].
+    - apply refused_x1.
+    - apply refused_x2.
+    - now destruct (refused_open _ _ Eo ltac:(discriminate)) as [Hr _].
+    - exfalso. eapply Hd; eassumption.
+    - exfalso. eapply Hd; eassumption.
+    - exfalso. eapply Hd; eassumption.
+  Qed.
+
   Lemma run_delete_refused : forall r tp al fa fu fh sp cf,
       refused w (run_delete w r tp al fa fu fh sp cf).
   Proof.
@@ -745,8 +763,883 @@ Proof.
     - apply run_sink_refused; assumption.
     - apply run_delete_refused; assumption.
     - apply run_spill_refused; assumption.
-    - apply run_squash_refused; assumption. }
+    - apply run_squash_refused; assumption.
+    - destruct noapply; [cbn in Hg; discriminate|]. apply run_pick_refused; assumption. }
   destruct (step lower_s w c) as [w' x]. exact H.
+Qed.
+
+(* `stg pick --noapply` has no conflict pre-check of its own: it reaches the transaction, whose
+   checkout refuses (exit 2) on the unmerged index -- but only after execute() has recorded an
+   external move of the branch head in the stack log, so the stack ref does move.  Hence
+   [conflict_guarded] holds only `CPick _ _ false`.  Witness: one patch, then `git commit`
+   outside stg, an unmerged index, `stg pick --noapply HEAD`. *)
+Definition cex_world_extmod : world :=
+  let w := run cex_idf (init_world [1;1;0]%N)
+              [CInit; CNew [112;48]%N 1%N [120]%N; GEdit 0 5%N; CRefresh;
+               GEdit 1 7%N; GCommit 3%N [121]%N] in
+  with_wt w (w_wt w) true.
+
+Lemma pick_noapply_conflicted_counterexample :
+  w_unmerged cex_world_extmod = true /\ w_stack cex_world_extmod = Some 11
+  /\ (let '(w', x) := step cex_idf cex_world_extmod (CPick (THeadAncestor 0) None true) in
+      x = X2 /\ w_stack w' = Some 15 /\ w_branch w' = w_branch cex_world_extmod)
+  /\ (let '(w', x) := step cex_idf cex_world_extmod (CPick (TPatch [112;48]%N) None true) in
+      x = X2 /\ w_stack w' = Some 15).
+Proof. vm_compute. repeat split; reflexivity. Qed.
+
+(* ================================================================ the configuration variable *)
+
+(* ---------------------------------------------------------------- transactions that stay calm *)
+
+(* what decides whether a push may record conflicts, and whether any are recorded *)
+Definition cm (t : txn) : bool * bool * bool :=
+  (o_use_iw (t_opts t), o_allow_push_conflicts (t_opts t), t_wt_unmerged t).
+
+(* options under which push_patch never writes conflicts: the merge fallback in the work
+   tree is either not used or not allowed to leave conflicts *)
+Definition quiet (o : topts) : Prop := o_use_iw o && o_allow_push_conflicts o = false.
+
+Definition calm (t : txn) : Prop := t_wt_unmerged t = false /\ quiet (t_opts t).
+
+Definition calm_res (r : tres) : Prop :=
+  match r with
+  | TOk t | THalt t _ | TErr t => calm t
+  | TPanic => True
+  end.
+
+Definition calmf (f : txn -> tres) : Prop := forall t, calm t -> calm_res (f t).
+
+Lemma calm_ext : forall b a, cm a = cm b -> calm b -> calm a.
+Proof.
+  intros b a H [H1 H2]. unfold cm in H. injection H as Ha Hb Hc.
+  unfold calm, quiet in *. rewrite Ha, Hb, Hc. split; assumption.
+Qed.
+
+Lemma calm_tbind : forall r g, calm_res r -> calmf g -> calm_res (tbind r g).
+Proof. intros [t|t h|t|] g Hr Hg; cbn [tbind calm_res] in *; auto. Qed.
+
+Lemma wtc_cm : forall a b, wtc a = wtc b -> cm a = cm b.
+Proof. intros a b H. apply wtc_inv in H as [Ho [_ Hu]]. unfold cm. now rewrite Ho, Hu. Qed.
+
+Lemma cm_move : forall t n, cm (move_to_applied t n) = cm t.
+Proof.
+  intros t n. unfold move_to_applied.
+  destruct (mem n (t_unapplied t)); [|destruct (mem n (t_hidden t))]; reflexivity.
+Qed.
+
+Lemma cm_push_commit : forall n t2 nt ptree st pc np op,
+  cm (push_commit n t2 nt ptree st pc np op) = cm t2.
+Proof.
+  intros. unfold push_commit.
+  destruct (negb (tree_eqb nt ptree) || negb (Nat.eqb np op)); [|reflexivity].
+  unfold recommit, put. destruct st; reflexivity.
+Qed.
+
+Lemma cm_pop : forall f t, cm (fst (pop_patches f t)) = cm t.
+Proof. intros f t. unfold pop_patches. destruct (split_at_first f (t_applied t)). reflexivity. Qed.
+
+Lemma cm_delete : forall f t, cm (fst (delete_patches f t)) = cm t.
+Proof. intros f t. unfold delete_patches. destruct (split_at_first f (t_applied t)). reflexivity. Qed.
+
+(* the heart: under calm options the tree selection of push_patch never ends in a conflict
+   and leaves the index merged *)
+Lemma push_sel_calm : forall am t ptree otree ntree,
+  calm t ->
+  match push_sel am t ptree otree ntree with
+  | inl (t2, _, st) => cm t2 = cm t /\ st <> PSConflict
+  | inr r => calm_res r
+  end.
+Proof.
+  intros am t ptree otree ntree Hc. rewrite push_sel_eq.
+  destruct am; [split; [reflexivity|discriminate]|].
+  destruct (tree_eqb otree ntree); [split; [reflexivity|discriminate]|].
+  destruct (tree_eqb otree ptree); [split; [reflexivity|discriminate]|].
+  destruct (tree_eqb ntree ptree); [split; [reflexivity|discriminate]|].
+  cbv zeta.
+  match goal with
+  | |- context[tmp_prep ?t ?o] =>
+      pose proof (wtc_tmp_prep t o) as Hw1; set (t1 := tmp_prep t o) in *
+  end.
+  apply wtc_cm in Hw1.
+  destruct (apply3way _ _ _ _).
+  - split; [exact Hw1|discriminate].
+  - assert (Ho : cm (set_tmp t1 None (t_tmp_content t1)) = cm t) by exact Hw1.
+    assert (Hcalm : calm (set_tmp t1 None (t_tmp_content t1))) by (now apply (calm_ext t)).
+    destruct Hcalm as [Hu Hq]. unfold quiet in Hq.
+    destruct (o_use_iw (t_opts (set_tmp t1 None (t_tmp_content t1)))) eqn:E1; cbn [negb];
+      [|cbn [calm_res]; now apply (calm_ext t)].
+    destruct (o_allow_push_conflicts (t_opts (set_tmp t1 None (t_tmp_content t1)))) eqn:E2;
+      cbn [negb andb] in *; [discriminate|].
+    cbn [calm_res]. now apply (calm_ext t).
+Qed.
+
+Lemma push_patch_calm : forall n am, calmf (push_patch n am).
+Proof.
+  intros n am t Hc. rewrite ListOpsProofs.push_patch_eq.
+  destruct (t_patch t n) as [pc|]; [|exact I].
+  destruct (t_top t) as [np|]; [|exact I].
+  destruct (first_parent (t_objs t) pc) as [op|]; [|exact Hc].
+  cbv zeta.
+  pose proof (push_sel_calm am t (tree_of (t_objs t) pc) (tree_of (t_objs t) op)
+                            (tree_of (t_objs t) np) Hc) as Hs.
+  destruct (push_sel am t _ _ _) as [[[t2 nt] st]|r]; [|exact Hs].
+  destruct Hs as [Hcm Hst]. unfold ListOpsProofs.push_fin.
+  destruct st; try congruence; cbn [calm_res]; apply (calm_ext t); try exact Hc;
+    rewrite cm_move, cm_push_commit; exact Hcm.
+Qed.
+
+Lemma push_list_calm : forall ns merged, calmf (push_list ns merged).
+Proof.
+  induction ns as [|n ns IH]; intros merged t Hc; cbn [push_list]; [exact Hc|].
+  apply calm_tbind; [now apply push_patch_calm|apply IH].
+Qed.
+
+Lemma push_patches_calm : forall ns cmg, calmf (push_patches ns cmg).
+Proof.
+  intros ns cmg t Hc. unfold push_patches. cbv zeta. destruct cmg.
+  - destruct (check_merged_loop _ _ _ _) as [[m c] i]. apply push_list_calm.
+    now apply (calm_ext t).
+  - apply push_list_calm. now apply (calm_ext t).
+Qed.
+
+Lemma push_tree_calm : forall n, calmf (push_tree n).
+Proof.
+  intros n t Hc. unfold push_tree.
+  destruct (t_patch t n) as [pc|]; [|exact I].
+  destruct (t_top t) as [top|]; [|exact I].
+  destruct (first_parent (t_objs t) pc) as [par|]; [|exact Hc].
+  cbv zeta.
+  match goal with
+  | |- calm_res (if mem n (t_unapplied ?t1) || _ then _ else _) =>
+      assert (H1 : cm t1 = cm t);
+      [|destruct (mem n (t_unapplied t1) || mem n (t_hidden t1)); [|exact I]]
+  end.
+  { destruct (Nat.eqb par top); reflexivity. }
+  cbn [calm_res]. apply (calm_ext t); [|exact Hc]. now rewrite cm_move.
+Qed.
+
+Lemma push_tree_list_calm : forall ns, calmf (push_tree_list ns).
+Proof.
+  induction ns as [|n ns IH]; intros t Hc; cbn [push_tree_list]; [exact Hc|].
+  apply calm_tbind; [now apply push_tree_calm|apply IH].
+Qed.
+
+Lemma reorder_calm : forall a u h, calmf (reorder_patches a u h).
+Proof.
+  intros a u h t Hc. unfold reorder_patches. cbv zeta. apply calm_tbind.
+  - destruct a as [applied|]; [|exact Hc].
+    match goal with |- context [pop_patches ?f t] =>
+      pose proof (cm_pop f t) as Hp; destruct (pop_patches f t) as [t1 x] end.
+    cbn [fst] in Hp. apply calm_tbind.
+    + apply push_patches_calm. now apply (calm_ext t).
+    + intros t2 H2. destruct (list_name_eqb _ _); [exact H2|exact I].
+  - intros t3 H3. cbn [calm_res]. destruct u, h; now apply (calm_ext t3).
+Qed.
+
+Lemma commit_calm : forall tc, calmf (commit_patches tc).
+Proof.
+  intros tc t Hc. unfold commit_patches. cbv zeta. apply calm_tbind.
+  - destruct (Nat.ltb _ _); [|exact Hc].
+    match goal with |- context [pop_patches ?f t] =>
+      pose proof (cm_pop f t) as Hp; destruct (pop_patches f t) as [t1 x] end.
+    cbn [fst] in Hp. apply calm_tbind.
+    + apply push_patches_calm. now apply (calm_ext t).
+    + intros t2 H2. exact H2.
+  - intros t2 H2. destruct (hd_error _); [|exact I].
+    destruct (t_patch t2 _); [|exact I].
+    destruct (Nat.ltb _ _); [exact I|].
+    apply push_patches_calm. now apply (calm_ext t2).
+Qed.
+
+Ltac calm_brk :=
+  repeat match goal with
+         | |- calm_res (if ?b then _ else _) => destruct b
+         | |- calm_res (match ?x with _ => _ end) => destruct x
+         end.
+
+Ltac calm_leaf t Hc :=
+  first [ exact I | exact Hc | cbn [calm_res]; apply (calm_ext t); [reflexivity|exact Hc] ].
+
+Lemma uncommit_calm : forall ps, calmf (uncommit_patches ps).
+Proof. intros ps t Hc. unfold uncommit_patches. calm_leaf t Hc. Qed.
+
+Lemma hide_calm : forall l, calmf (hide_patches l).
+Proof. intros l t Hc. unfold hide_patches. now apply reorder_calm. Qed.
+
+Lemma unhide_calm : forall l, calmf (unhide_patches l).
+Proof. intros l t Hc. unfold unhide_patches. now apply reorder_calm. Qed.
+
+Lemma rename_calm : forall old new, calmf (rename_patch old new).
+Proof. intros old new t Hc. unfold rename_patch. cbv zeta. calm_brk; calm_leaf t Hc. Qed.
+
+Lemma new_applied_calm : forall n o, calmf (new_applied n o).
+Proof. intros n o t Hc. unfold new_applied. calm_brk; calm_leaf t Hc. Qed.
+
+Lemma new_unapplied_calm : forall n o pos, calmf (new_unapplied n o pos).
+Proof. intros n o pos t Hc. unfold new_unapplied. calm_brk; calm_leaf t Hc. Qed.
+
+Lemma update_patch_calm : forall n o, calmf (update_patch n o).
+Proof. intros n o t Hc. unfold update_patch. calm_brk; calm_leaf t Hc. Qed.
+
+Lemma repair_appliedness_calm : forall a u h, calmf (repair_appliedness a u h).
+Proof. intros a u h t Hc. unfold repair_appliedness. calm_brk; calm_leaf t Hc. Qed.
+
+Lemma reset_calm : forall s, calmf (reset_to_state s).
+Proof. intros s t Hc. unfold reset_to_state. cbv zeta. calm_brk; calm_leaf t Hc. Qed.
+
+Lemma fold_cm : forall (A : Type) (g : txn -> A -> txn) l t,
+  (forall t a, cm (g t a) = cm t) -> cm (fold_left g l t) = cm t.
+Proof.
+  intros A g. induction l as [|a l IH]; intros t Hg; cbn [fold_left]; [reflexivity|].
+  rewrite IH by exact Hg. apply Hg.
+Qed.
+
+Lemma reset_partially_calm : forall s only, calmf (reset_to_state_partially s only).
+Proof.
+  intros s only t Hc. unfold reset_to_state_partially. cbv zeta.
+  match goal with |- context [pop_patches ?f t] =>
+    pose proof (cm_pop f t) as Hp; destruct (pop_patches f t) as [t1 x1] end.
+  cbn [fst] in Hp.
+  match goal with |- context [delete_patches ?f t1] =>
+    pose proof (cm_delete f t1) as Hd; destruct (delete_patches f t1) as [t2 x2] end.
+  cbn [fst] in Hd.
+  apply push_patches_calm. apply (calm_ext t); [|exact Hc].
+  rewrite fold_cm; [congruence|].
+  intros t0 n0.
+  repeat match goal with
+         | |- context [if ?b then _ else _] => destruct b
+         | |- context [match ?x with _ => _ end] => destruct x
+         end; reflexivity.
+Qed.
+
+Lemma try_squash_cm : forall t ps meta msg t1 o,
+  try_squash t ps meta msg = Some (t1, o) -> cm t1 = cm t.
+Proof.
+  intros t ps meta msg t1 o H. unfold try_squash in H.
+  destruct ps as [|b rest]; [discriminate|].
+  destruct (t_patch t b); [|discriminate].
+  destruct (squash_tree _ _ _ _); [|discriminate].
+  unfold put in H. injection H as <- _. reflexivity.
+Qed.
+
+Lemma squash_finish_calm : forall newn o to_push sp, calmf (squash_finish newn o to_push sp).
+Proof.
+  intros newn o to_push sp t Hc. unfold squash_finish.
+  apply calm_tbind; [now apply new_unapplied_calm|apply push_patches_calm].
+Qed.
+
+Lemma squash_closure_calm : forall ps newn meta msg sp, calmf (squash_closure ps newn meta msg sp).
+Proof.
+  intros ps newn meta msg sp t Hc. unfold squash_closure.
+  destruct (try_squash t ps meta msg) as [[t1 o]|] eqn:E1.
+  - apply try_squash_cm in E1.
+    match goal with |- context [delete_patches ?f t1] =>
+      pose proof (cm_delete f t1) as Hd; destruct (delete_patches f t1) as [t2 x2] end.
+    cbn [fst] in Hd. apply squash_finish_calm. apply (calm_ext t); [congruence|exact Hc].
+  - match goal with |- context [pop_patches ?f t] =>
+      pose proof (cm_pop f t) as Hp; destruct (pop_patches f t) as [t1 x1] end.
+    cbn [fst] in Hp. apply calm_tbind.
+    + apply push_patches_calm. now apply (calm_ext t).
+    + intros t2 H2. destruct (try_squash t2 ps meta msg) as [[t3 o]|] eqn:E2; [|exact H2].
+      apply try_squash_cm in E2.
+      match goal with |- context [delete_patches ?f t3] =>
+        pose proof (cm_delete f t3) as Hd; destruct (delete_patches f t3) as [t4 extra] end.
+      cbn [fst] in Hd. destruct extra; [|exact I].
+      apply squash_finish_calm. apply (calm_ext t2); [congruence|exact H2].
+Qed.
+
+Lemma pick_body_calm : forall pn o na, calmf (pick_body pn o na).
+Proof.
+  intros pn o na t Hc. unfold pick_body. apply calm_tbind; [now apply new_unapplied_calm|].
+  intros t1 H1. destruct na; [exact H1|now apply push_patches_calm].
+Qed.
+
+Lemma fold_tbind_calm : forall (A : Type) (g : A -> txn -> tres) l r,
+  (forall a, calmf (g a)) -> calm_res r ->
+  calm_res (fold_left (fun r c => tbind r (g c)) l r).
+Proof.
+  intros A g. induction l as [|a l IH]; intros r Hg Hr; cbn [fold_left]; [exact Hr|].
+  apply IH; [exact Hg|]. apply calm_tbind; [exact Hr|apply Hg].
+Qed.
+
+(* ---------------------------------------------------------------- execute *)
+
+Lemma checkout_merged : forall o st tt wt cur tgt wt' um',
+  checkout o st tt wt false cur tgt = Some (wt', um') -> um' = false.
+Proof.
+  intros o st tt wt cur tgt wt' um' H. unfold checkout in H.
+  repeat brk_any_in H; inversion H; reflexivity.
+Qed.
+
+Lemma log_external_mods_apc : forall w s w1 s1,
+  log_external_mods w s = Some (w1, s1) -> w_apc w1 = w_apc w.
+Proof.
+  intros w s w1 s1 H. unfold log_external_mods in H.
+  repeat brk_any_in H; inversion H; subst; reflexivity.
+Qed.
+
+Lemma exec_logged_facts : forall w t w1 st1,
+  WfFrame.exec_logged w t = Some (w1, st1) ->
+  w_unmerged w1 = t_wt_unmerged t /\ w_apc w1 = w_apc w.
+Proof.
+  intros w t w1 st1 H. unfold WfFrame.exec_logged in H. destruct (Nat.eqb _ _).
+  - injection H as <- _. split; reflexivity.
+  - pose proof (log_external_mods_apc _ _ _ _ H) as Ha.
+    apply log_external_mods_frame in H as [_ [_ Hu]]. split; assumption.
+Qed.
+
+Lemma exec_co_merged : forall t th w1 st1,
+  w_unmerged w1 = false ->
+  match WfFrame.exec_co t th w1 st1 with
+  | inl (_, um') => um' = false
+  | inr (_, um', _) => um' = false
+  end.
+Proof.
+  intros t th w1 st1 Hu. unfold WfFrame.exec_co. cbv zeta. rewrite Hu.
+  destruct (o_set_head (t_opts t) && o_use_iw (t_opts t)); [|reflexivity].
+  destruct (_ && _ && _); [reflexivity|].
+  destruct (checkout _ _ _ _ false _ (tree_of (t_objs t) th)) as [[wt' um']|] eqn:E1.
+  - apply checkout_merged in E1. exact E1.
+  - destruct (checkout _ _ _ _ false _ (tree_of (w_objs w1) (w_branch w1))) as [[wt' um']|] eqn:E2;
+      [|exact eq_refl].
+    apply checkout_merged in E2. exact E2.
+Qed.
+
+Lemma exec_fin_facts : forall t th w1 st1 wt' um' halted msg,
+  w_apc (fst (WfFrame.exec_fin t th w1 st1 wt' um' halted msg)) = w_apc w1
+  /\ (w_unmerged w1 = false -> um' = false ->
+      w_unmerged (fst (WfFrame.exec_fin t th w1 st1 wt' um' halted msg)) = false).
+Proof.
+  intros t th w1 st1 wt' um' halted msg. unfold WfFrame.exec_fin.
+  destruct (w_stack w1); [|split; [reflexivity|auto]].
+  destruct (state_commit _ _ _) as [[objs' so]|]; [|split; [reflexivity|auto]].
+  destruct halted; split; cbn; auto.
+Qed.
+
+Lemma exec_body_facts : forall w t halted msg,
+  w_apc (fst (WfFrame.exec_body w t halted msg)) = w_apc w
+  /\ (w_unmerged w = false -> t_wt_unmerged t = false ->
+      w_unmerged (fst (WfFrame.exec_body w t halted msg)) = false).
+Proof.
+  intros w t halted msg. unfold WfFrame.exec_body.
+  destruct (negb (WfFrame.exec_consistent t)); [split; [reflexivity|auto]|].
+  destruct (t_head_oid t) as [th|]; [|split; [reflexivity|auto]].
+  destruct (WfFrame.exec_logged w t) as [[w1 st1]|] eqn:El; [|split; [reflexivity|cbn; auto]].
+  apply exec_logged_facts in El as [Hu1 Ha1].
+  pose proof (exec_co_merged t th w1 st1) as Hco.
+  destruct (WfFrame.exec_co t th w1 st1) as [[wt' um']|[[wt' um'] x]].
+  - destruct (exec_fin_facts t th w1 st1 wt' um' halted msg) as [Ha Hu]. split; [congruence|].
+    intros Hw Ht. apply Hu; [congruence|]. apply Hco. congruence.
+  - cbn [fst w_apc w_unmerged]. split; [exact Ha1|]. intros Hw Ht. apply Hco. congruence.
+Qed.
+
+Lemma execute_facts : forall w r msg,
+  w_apc (fst (execute w r msg)) = w_apc w
+  /\ (w_unmerged w = false -> calm_res r -> w_unmerged (fst (execute w r msg)) = false).
+Proof.
+  intros w r msg. rewrite WfFrame.execute_eq. destruct r as [t|t h|t|].
+  - destruct (exec_body_facts w t None msg) as [Ha Hu]. split; [exact Ha|].
+    intros Hw [Ht _]. now apply Hu.
+  - destruct (exec_body_facts w t (Some h) msg) as [Ha Hu]. split; [exact Ha|].
+    intros Hw [Ht _]. now apply Hu.
+  - split; [reflexivity|]. intros _ [Ht _]. exact Ht.
+  - split; [reflexivity|]. intros Hw _. exact Hw.
+Qed.
+
+Lemma transact_apc : forall op o f msg, w_apc (fst (transact op o f msg)) = w_apc (op_world op).
+Proof.
+  intros op o f msg. unfold transact. destruct (negb (op_initialized op)).
+  - destruct (f (begin_txn op o)); reflexivity.
+  - apply execute_facts.
+Qed.
+
+Lemma transact_merged : forall op o f msg,
+  w_unmerged (op_world op) = false -> quiet o -> calmf f ->
+  w_unmerged (fst (transact op o f msg)) = false.
+Proof.
+  intros op o f msg Hu Hq Hf. unfold transact. destruct (negb (op_initialized op)).
+  - destruct (f (begin_txn op o)); exact Hu.
+  - apply execute_facts; [exact Hu|]. apply Hf. split; [exact Hu|exact Hq].
+Qed.
+
+(* ---------------------------------------------------------------- closures *)
+
+Ltac cm_solve :=
+  rewrite ?cm_pop, ?cm_delete;
+  first [ reflexivity | congruence
+        | match goal with
+          | H : cm ?a = ?rhs |- cm _ = _ =>
+              transitivity (cm a); [reflexivity|];
+              transitivity rhs; [exact H|]; first [reflexivity|congruence]
+          end ].
+
+Ltac calm_close :=
+  match goal with
+  | H : calm ?t |- calm _ => first [ exact H | apply (calm_ext t); [cm_solve|exact H] ]
+  end.
+
+Ltac calm_step :=
+  match goal with
+  | |- calm_res TPanic => exact I
+  | |- calm_res (TOk _) => cbn [calm_res]; calm_close
+  | |- calm_res (TErr _) => cbn [calm_res]; calm_close
+  | |- calm_res (tbind _ _) =>
+      apply calm_tbind;
+      [|let t := fresh "t" in let H := fresh "Hc" in intros t H; cbv beta]
+  | |- calm_res (push_patches _ _ _) => apply push_patches_calm; calm_close
+  | |- calm_res (push_tree_list _ _) => apply push_tree_list_calm; calm_close
+  | |- calm_res (reorder_patches _ _ _ _) => apply reorder_calm; calm_close
+  | |- calm_res (commit_patches _ _) => apply commit_calm; calm_close
+  | |- calm_res (uncommit_patches _ _) => apply uncommit_calm; calm_close
+  | |- calm_res (hide_patches _ _) => apply hide_calm; calm_close
+  | |- calm_res (unhide_patches _ _) => apply unhide_calm; calm_close
+  | |- calm_res (rename_patch _ _ _) => apply rename_calm; calm_close
+  | |- calm_res (new_applied _ _ _) => apply new_applied_calm; calm_close
+  | |- calm_res (new_unapplied _ _ _ _) => apply new_unapplied_calm; calm_close
+  | |- calm_res (update_patch _ _ _) => apply update_patch_calm; calm_close
+  | |- calm_res (repair_appliedness _ _ _ _) => apply repair_appliedness_calm; calm_close
+  | |- calm_res (reset_to_state _ _) => apply reset_calm; calm_close
+  | |- calm_res (reset_to_state_partially _ _ _) => apply reset_partially_calm; calm_close
+  | |- calm_res (squash_closure _ _ _ _ _ _) => apply squash_closure_calm; calm_close
+  | |- calm_res (match delete_patches ?f ?t with _ => _ end) =>
+      let H := fresh "Hd" in
+      pose proof (cm_delete f t) as H; destruct (delete_patches f t) as [? ?]; cbn [fst] in H
+  | |- calm_res (match pop_patches ?f ?t with _ => _ end) =>
+      let H := fresh "Hp" in
+      pose proof (cm_pop f t) as H; destruct (pop_patches f t) as [? ?]; cbn [fst] in H
+  | |- calm_res (if ?b then _ else _) => destruct b
+  | |- calm_res (match ?x with _ => _ end) => destruct x
+  end.
+
+Ltac calm_solve :=
+  let t := fresh "t" in let Hc := fresh "Hc" in
+  intros t Hc; cbv beta zeta; repeat calm_step.
+
+(* ---------------------------------------------------------------- opening *)
+
+Lemma open_stack_apc : forall p w op, open_stack p w = Some op -> w_apc (op_world op) = w_apc w.
+Proof.
+  intros p w op H. unfold open_stack in H.
+  repeat brk_any_in H; inversion H; subst; reflexivity.
+Qed.
+
+Lemma log_extmods_first_facts : forall op0 op,
+  log_extmods_first op0 = Some op ->
+  w_apc (op_world op) = w_apc (op_world op0)
+  /\ w_unmerged (op_world op) = w_unmerged (op_world op0).
+Proof.
+  intros op0 op H. unfold log_extmods_first in H. destruct (Nat.eqb _ _).
+  - injection H as <-. split; reflexivity.
+  - destruct (log_external_mods _ _) as [[w1 s1]|] eqn:El; [|discriminate].
+    injection H as <-. cbn [op_world]. split.
+    + eapply log_external_mods_apc; exact El.
+    + apply log_external_mods_frame in El as [_ [_ Hu]]. exact Hu.
+Qed.
+
+(* ---------------------------------------------------------------- stg_keeps_config *)
+
+Ltac ag_leaf :=
+  cbn [fst err2 ok0 rres_bind];
+  rewrite ?transact_apc; cbn [op_world with_objs w_apc];
+  first [ reflexivity | assumption | congruence ].
+
+Ltac ag_destruct :=
+  match goal with
+  | |- w_apc (fst (rres_bind _ ?r _)) = _ => destruct r; cbn [rres_bind]
+  | |- context [match ?x with _ => _ end] =>
+      lazymatch x with
+      | context [match _ with _ => _ end] => fail
+      | transact _ _ _ _ => fail
+      | open_stack ?p ?w =>
+          let E := fresh "Eo" in
+          destruct (open_stack p w) as [?op|] eqn:E; [apply open_stack_apc in E|]
+      | _ => destruct x
+      end
+  | |- w_apc (fst (if ?b then _ else _)) = _ => destruct b
+  | |- w_apc (fst (match ?x with _ => _ end)) = _ =>
+      lazymatch x with transact _ _ _ _ => fail | _ => destruct x end
+  end.
+
+Ltac apc_auto := cbv zeta; repeat (first [ag_leaf | ag_destruct]).
+
+Lemma run_refresh_apc : forall w, w_apc (fst (run_refresh w)) = w_apc w.
+Proof.
+  intros w. unfold run_refresh. cbv zeta.
+  destruct (open_stack PAllow w) as [op|] eqn:Eo; [apply open_stack_apc in Eo|reflexivity].
+  destruct (negb (head_top_ok op)); [exact Eo|].
+  destruct (last_error _) as [pn|]; [|exact Eo].
+  destruct (w_unmerged (op_world op)); [exact Eo|].
+  unfold put. cbv zeta beta iota.
+  match goal with |- context [transact ?o ?a ?f ?m] =>
+    pose proof (transact_apc o a f m) as H1; destruct (transact o a f m) as [w2 x] end.
+  cbn [fst op_world with_objs w_apc] in H1.
+  destruct x; cbn [fst]; try congruence.
+  destruct (open_stack PAllow w2) as [op2|] eqn:Eo2; [apply open_stack_apc in Eo2|cbn [fst err2]; congruence].
+  rewrite transact_apc. congruence.
+Qed.
+
+Lemma run_rebase_apc : forall w tg, w_apc (fst (run_rebase w tg)) = w_apc w.
+Proof.
+  intros w tg. unfold run_rebase. cbv zeta.
+  destruct (open_stack PRequire w) as [op|] eqn:Eo; [apply open_stack_apc in Eo|reflexivity].
+  destruct (resolve_gtarget _ _) as [target|]; [|exact Eo].
+  destruct (Nat.eqb _ _); [exact Eo|].
+  destruct (negb (head_top_ok op)); [exact Eo|].
+  destruct (dirty _); [exact Eo|].
+  match goal with |- context [transact ?o ?a ?f ?m] =>
+    pose proof (transact_apc o a f m) as H1; destruct (transact o a f m) as [w2 x] end.
+  cbn [fst] in H1.
+  destruct x; cbn [fst]; try congruence.
+  match goal with |- context [open_stack PRequire ?w3] =>
+    destruct (open_stack PRequire w3) as [op3|] eqn:Eo3;
+    [apply open_stack_apc in Eo3; cbn [w_apc] in Eo3|cbn [fst err2 w_apc]; congruence] end.
+  destruct (log_extmods_first op3) as [op4|] eqn:El; [|cbn [fst err2]; congruence].
+  apply log_extmods_first_facts in El as [Ha4 _].
+  destruct (negb (head_top_ok op4)); [cbn [fst err2]; congruence|].
+  rewrite transact_apc. congruence.
+Qed.
+
+Lemma run_squash_apc : forall w r nm meta msg, w_apc (fst (run_squash w r nm meta msg)) = w_apc w.
+Proof.
+  intros w r nm meta msg. unfold run_squash.
+  destruct (parse_ranges r) as [prs|]; [|reflexivity].
+  destruct (from_str nm) as [newn|]; [|reflexivity].
+  destruct (open_stack PAllow w) as [op|] eqn:Eo; [apply open_stack_apc in Eo|reflexivity].
+  cbv zeta.
+  destruct (w_unmerged (op_world op)); [exact Eo|].
+  destruct (negb (head_top_ok op)); [exact Eo|].
+  destruct (resolve_names _ _ _) as [ps| |]; cbn [rres_bind]; [|exact Eo|exact Eo].
+  destruct (_ && _); [exact Eo|].
+  destruct (Nat.ltb _ _); [exact Eo|].
+  rewrite WfFrame.squash_exit_fst. rewrite transact_apc. exact Eo.
+Qed.
+
+Lemma run_undo_like_apc : forall w steps hard msg, w_apc (fst (run_undo_like w steps hard msg)) = w_apc w.
+Proof.
+  intros w steps hard msg. unfold run_undo_like.
+  destruct (open_stack PRequire w) as [op0|] eqn:Eo; [apply open_stack_apc in Eo|reflexivity].
+  destruct (log_extmods_first op0) as [op|] eqn:El; [|exact Eo].
+  apply log_extmods_first_facts in El as [Ha _]. cbv zeta. rewrite transact_apc. congruence.
+Qed.
+
+Lemma stg_keeps_config :
+  forall lower_s w c, is_stg c = true -> w_apc (fst (step lower_s w c)) = w_apc w.
+Proof.
+  intros lower_s w c Hs. destruct c; try discriminate Hs; cbn [step].
+  - apc_auto.
+  - unfold run_new, put. apc_auto.
+  - apply run_refresh_apc.
+  - unfold run_push. apc_auto.
+  - unfold run_pop. apc_auto.
+  - unfold run_goto. apc_auto.
+  - unfold run_float. apc_auto.
+  - unfold run_sink. apc_auto.
+  - unfold run_delete. apc_auto.
+  - unfold run_hide. apc_auto.
+  - unfold run_unhide. apc_auto.
+  - unfold run_rename. apc_auto.
+  - unfold run_commit. apc_auto.
+  - unfold run_uncommit. apc_auto.
+  - unfold run_clean. apc_auto.
+  - unfold run_spill, put. apc_auto.
+  - unfold run_undo. destruct (n <? 1)%Z; [reflexivity|apply run_undo_like_apc].
+  - unfold run_redo. destruct (n =? 0)%N; [reflexivity|]. destruct (isize_max <? n)%N; [reflexivity|].
+    apply run_undo_like_apc.
+  - unfold run_reset, with_wt. apc_auto.
+  - unfold run_repair. apc_auto.
+  - unfold run_log_clear. apc_auto.
+  - unfold run_edit, put. apc_auto.
+  - apply run_rebase_apc.
+  - apply run_squash_apc.
+  - destruct (run_pick_case lower_s w src nm noapply) as
+      [_|_|op Eo|op given o Eo _ _ _ _|op given o pn0 Eo _ _ _ _ _|op given o pn0 pn c par Eo _ _ _ _ _ _ _ _];
+      cbn [fst]; try reflexivity; apply open_stack_apc in Eo; try exact Eo.
+    rewrite transact_apc. exact Eo.
+  - apc_auto.
+Qed.
+
+(* ---------------------------------------------------------------- config_disallow_keeps_index_merged *)
+
+Lemma quiet_off : forall cmode d iw sh bh, quiet (opts cmode false d iw sh bh).
+Proof. intros. unfold quiet, opts. cbn [o_use_iw o_allow_push_conflicts]. apply andb_false_r. Qed.
+
+Lemma quiet_default : quiet default_opts.
+Proof. reflexivity. Qed.
+
+Ltac quiet_solve :=
+  cbn [op_world with_objs w_apc];
+  repeat match goal with
+         | H : w_apc _ = false |- _ => rewrite H
+         | H : allow_conf false _ = false |- _ => rewrite H
+         end;
+  first [ apply quiet_off | apply quiet_default ].
+
+Ltac mg_open :=
+  match goal with
+  | Ha : w_apc ?w = false, Hu : w_unmerged ?w = false |- context [open_stack ?p ?w] =>
+      let E := fresh "Eo" in let op := fresh "op" in
+      destruct (open_stack p w) as [op|] eqn:E;
+      [ let Ha1 := fresh "Ha" in let Hu1 := fresh "Hu" in
+        pose proof (open_stack_apc _ _ _ E) as Ha1; rewrite Ha in Ha1;
+        destruct (open_stack_frame _ _ _ E) as [_ [_ Hu1]]; rewrite Hu in Hu1; clear E
+      | ]
+  end.
+
+Ltac mg_leaf :=
+  cbn [fst err2 ok0 rres_bind];
+  first [ assumption
+        | match goal with
+          | |- w_unmerged (mkWorld _ _ _ _ _ false _ _) = false => reflexivity
+          end
+        | apply transact_merged;
+          [ cbn [op_world with_objs w_unmerged]; assumption | quiet_solve | calm_solve ] ].
+
+Ltac mg_destruct :=
+  match goal with
+  | H : w_unmerged ?x = false |- context [if w_unmerged ?x then _ else _] => rewrite H
+  | |- w_unmerged (fst (rres_bind _ ?r _)) = false => destruct r; cbn [rres_bind]
+  | |- context [match ?x with _ => _ end] =>
+      lazymatch x with
+      | context [match _ with _ => _ end] => fail
+      | transact _ _ _ _ => fail
+      | open_stack _ _ => mg_open
+      | _ => destruct x
+      end
+  | |- w_unmerged (fst (if ?b then _ else _)) = false => destruct b
+  | |- w_unmerged (fst (match ?x with _ => _ end)) = false =>
+      lazymatch x with transact _ _ _ _ => fail | _ => destruct x end
+  end.
+
+Ltac merged_auto := cbv zeta; repeat (first [mg_leaf | mg_destruct]).
+
+Section Merged.
+  Variable w : world.
+  Hypothesis Ha : w_apc w = false.
+  Hypothesis Hu : w_unmerged w = false.
+
+  Lemma run_new_merged : forall nm meta msg, w_unmerged (fst (run_new w nm meta msg)) = false.
+  Proof. intros. unfold run_new, put. merged_auto. Qed.
+
+  Lemma run_pop_merged : forall r n al kp sp, w_unmerged (fst (run_pop w r n al kp sp)) = false.
+  Proof. intros. unfold run_pop. merged_auto. Qed.
+
+  Lemma run_float_merged : forall r na kp, w_unmerged (fst (run_float w r na kp)) = false.
+  Proof. intros. unfold run_float. merged_auto. Qed.
+
+  Lemma run_sink_merged : forall r tg np kp, w_unmerged (fst (run_sink w r tg np kp)) = false.
+  Proof. intros. unfold run_sink. merged_auto. Qed.
+
+  Lemma run_hide_merged : forall r, w_unmerged (fst (run_hide w r)) = false.
+  Proof. intros. unfold run_hide. merged_auto. Qed.
+
+  Lemma run_unhide_merged : forall r, w_unmerged (fst (run_unhide w r)) = false.
+  Proof. intros. unfold run_unhide. merged_auto. Qed.
+
+  Lemma run_rename_merged : forall o n, w_unmerged (fst (run_rename w o n)) = false.
+  Proof. intros. unfold run_rename. merged_auto. Qed.
+
+  Lemma run_commit_merged : forall r n al ae, w_unmerged (fst (run_commit w r n al ae)) = false.
+  Proof. intros. unfold run_commit. merged_auto. Qed.
+
+  Lemma run_uncommit_merged : forall lower_s n names,
+    w_unmerged (fst (run_uncommit lower_s w n names)) = false.
+  Proof. intros. unfold run_uncommit. merged_auto. Qed.
+
+  Lemma run_clean_merged : forall a u, w_unmerged (fst (run_clean w a u)) = false.
+  Proof. intros. unfold run_clean. merged_auto. Qed.
+
+  Lemma run_spill_merged : w_unmerged (fst (run_spill w)) = false.
+  Proof. unfold run_spill, put. merged_auto. Qed.
+
+  Lemma run_edit_merged : forall l m msg, w_unmerged (fst (run_edit w l m msg)) = false.
+  Proof. intros. unfold run_edit, put. merged_auto. Qed.
+
+  Lemma run_log_clear_merged : w_unmerged (fst (run_log_clear w)) = false.
+  Proof. unfold run_log_clear. merged_auto. Qed.
+
+  Lemma run_push_merged : forall r n al rv na st mg kp cf,
+    no_explicit_allow (CPush r n al rv na st mg kp cf) = true ->
+    w_unmerged (fst (run_push w r n al rv na st mg kp cf)) = false.
+  Proof.
+    intros r n al rv na st mg kp cf Hg.
+    assert (Hcf : allow_conf false cf = false) by (destruct cf as [[|]|]; [discriminate Hg|reflexivity|reflexivity]).
+    clear Hg. unfold run_push. merged_auto.
+  Qed.
+
+  Lemma run_goto_merged : forall l kp mg cf,
+    no_explicit_allow (CGoto l kp mg cf) = true ->
+    w_unmerged (fst (run_goto w l kp mg cf)) = false.
+  Proof.
+    intros l kp mg cf Hg.
+    assert (Hcf : allow_conf false cf = false) by (destruct cf as [[|]|]; [discriminate Hg|reflexivity|reflexivity]).
+    clear Hg. unfold run_goto. merged_auto.
+  Qed.
+
+  Lemma run_delete_merged : forall r tp al fa fu fh sp cf,
+    no_explicit_allow (CDelete r tp al fa fu fh sp cf) = true ->
+    w_unmerged (fst (run_delete w r tp al fa fu fh sp cf)) = false.
+  Proof.
+    intros r tp al fa fu fh sp cf Hg.
+    assert (Hcf : allow_conf false cf = false) by (destruct cf as [[|]|]; [discriminate Hg|reflexivity|reflexivity]).
+    clear Hg. unfold run_delete. merged_auto.
+  Qed.
+
+  Lemma run_undo_like_merged : forall steps hard msg,
+    w_unmerged (fst (run_undo_like w steps hard msg)) = false.
+  Proof.
+    intros steps hard msg. unfold run_undo_like. mg_open; [|exact Hu].
+    destruct (log_extmods_first op) as [op1|] eqn:El; [|exact Hu0].
+    apply log_extmods_first_facts in El as [Ha1 Hu1]. rewrite Ha0 in Ha1. rewrite Hu0 in Hu1.
+    merged_auto.
+  Qed.
+
+  Lemma run_reset_merged : forall e r h, w_unmerged (fst (run_reset w e r h)) = false.
+  Proof. intros. unfold run_reset, with_wt. merged_auto. Qed.
+
+  Lemma run_repair_merged : forall lower_s, w_unmerged (fst (run_repair lower_s w)) = false.
+  Proof.
+    intros lower_s. unfold run_repair. mg_open; [|exact Hu]. cbv zeta.
+    destruct (repair_walk _ _ _ _ _ _ _ _) as [[applied_rev patchify_rev] stop].
+    apply transact_merged; [exact Hu0|quiet_solve|].
+    intros t Hc. apply calm_tbind; [now apply repair_appliedness_calm|].
+    intros t0 H0.
+    apply (fold_tbind_calm _ (fun c t =>
+             match make lower_s (subj_of (t_objs t) c) true (Some 30%N) with
+             | Ok nm => match uniquify nm [] (t_all t) with
+                        | UOk pn => new_applied pn c t
+                        | UFuel => TPanic
+                        end
+             | _ => TPanic
+             end)).
+    - intros c t1 H1. cbv beta. repeat calm_step.
+    - cbn [calm_res]. now apply (calm_ext t0).
+  Qed.
+
+  Lemma run_refresh_merged : w_unmerged (fst (run_refresh w)) = false.
+  Proof.
+    unfold run_refresh. cbv zeta. mg_open; [|exact Hu].
+    destruct (negb (head_top_ok op)); [exact Hu0|].
+    destruct (last_error _) as [pn|]; [|exact Hu0].
+    rewrite Hu0. unfold put. cbv zeta beta iota.
+    match goal with |- context [transact ?o ?a ?f ?m] =>
+      pose proof (transact_apc o a f m) as A1;
+      assert (U1 : w_unmerged (fst (transact o a f m)) = false);
+      [|destruct (transact o a f m) as [w2 x]] end.
+    { apply transact_merged; [exact Hu0|quiet_solve|calm_solve]. }
+    cbn [fst op_world with_objs w_apc] in A1, U1. rewrite Ha0 in A1.
+    destruct x; cbn [fst]; try exact U1.
+    destruct (open_stack PAllow w2) as [op2|] eqn:Eo2; [|exact U1].
+    pose proof (open_stack_apc _ _ _ Eo2) as A2. rewrite A1 in A2.
+    destruct (open_stack_frame _ _ _ Eo2) as [_ [_ U2]]. rewrite U1 in U2.
+    apply transact_merged; [exact U2|quiet_solve|].
+    intros t Hc. cbv beta.
+    destruct (t_patch t pn) as [pc|]; [|exact I].
+    destruct (t_patch t _) as [tc|]; [|exact I].
+    cbv zeta. unfold put.
+    destruct (tree_eqb _ _); cbn [fst snd];
+      match goal with |- context [delete_patches ?f ?t0] =>
+        pose proof (cm_delete f t0) as Hd; destruct (delete_patches f t0) as [t2 x2] end;
+      cbn [fst] in Hd; repeat calm_step.
+  Qed.
+
+  Lemma run_rebase_merged : forall tg, w_unmerged (fst (run_rebase w tg)) = false.
+  Proof.
+    intros tg. unfold run_rebase. cbv zeta. mg_open; [|exact Hu].
+    destruct (resolve_gtarget _ _) as [target|]; [|exact Hu0].
+    destruct (Nat.eqb _ _); [exact Hu0|].
+    destruct (negb (head_top_ok op)); [exact Hu0|].
+    destruct (dirty _); [exact Hu0|].
+    match goal with |- context [transact ?o ?a ?f ?m] =>
+      pose proof (transact_apc o a f m) as A1;
+      assert (U1 : w_unmerged (fst (transact o a f m)) = false);
+      [|destruct (transact o a f m) as [w2 x]] end.
+    { apply transact_merged; [exact Hu0|quiet_solve|calm_solve]. }
+    cbn [fst] in A1, U1. rewrite Ha0 in A1.
+    destruct x; cbn [fst]; try exact U1.
+    match goal with |- context [open_stack PRequire ?w3] =>
+      destruct (open_stack PRequire w3) as [op3|] eqn:Eo3; [|reflexivity] end.
+    pose proof (open_stack_apc _ _ _ Eo3) as A3. cbn [w_apc] in A3. rewrite A1 in A3.
+    destruct (open_stack_frame _ _ _ Eo3) as [_ [_ U3]]. cbn [w_unmerged] in U3.
+    destruct (log_extmods_first op3) as [op4|] eqn:El; [|exact U3].
+    apply log_extmods_first_facts in El as [A4 U4]. rewrite A3 in A4. rewrite U3 in U4.
+    destruct (negb (head_top_ok op4)); [exact U4|].
+    apply transact_merged; [exact U4|quiet_solve|calm_solve].
+  Qed.
+
+  Lemma run_squash_merged : forall r nm meta msg, w_unmerged (fst (run_squash w r nm meta msg)) = false.
+  Proof.
+    intros r nm meta msg. unfold run_squash.
+    destruct (parse_ranges r) as [prs|]; [|exact Hu].
+    destruct (from_str nm) as [newn|]; [|exact Hu].
+    mg_open; [|exact Hu]. cbv zeta. rewrite Hu0.
+    destruct (negb (head_top_ok op)); [exact Hu0|].
+    destruct (resolve_names _ _ _) as [ps| |]; cbn [rres_bind]; [|exact Hu0|exact Hu0].
+    destruct (_ && _); [exact Hu0|].
+    destruct (Nat.ltb _ _); [exact Hu0|].
+    rewrite WfFrame.squash_exit_fst.
+    apply transact_merged; [exact Hu0|quiet_solve|calm_solve].
+  Qed.
+
+  Lemma run_pick_merged : forall lower_s src nm na,
+    w_unmerged (fst (run_pick lower_s w src nm na)) = false.
+  Proof.
+    intros lower_s src nm na.
+    destruct (run_pick_case lower_s w src nm na) as
+      [_|_|op Eo|op given o Eo _ _ _ _|op given o pn0 Eo _ _ _ _ _|op given o pn0 pn c par Eo _ _ _ _ _ _ _ _];
+      cbn [fst]; try exact Hu;
+      pose proof (open_stack_apc _ _ _ Eo) as Ha0; rewrite Ha in Ha0;
+      destruct (open_stack_frame _ _ _ Eo) as [_ [_ Hu0]]; rewrite Hu in Hu0; try exact Hu0.
+    apply transact_merged; [exact Hu0| |apply pick_body_calm].
+    rewrite Ha0. apply quiet_off.
+  Qed.
+End Merged.
+
+Lemma config_disallow_keeps_index_merged :
+  forall lower_s w c,
+    w_apc w = false -> w_unmerged w = false -> is_stg c = true -> no_explicit_allow c = true ->
+    w_unmerged (fst (step lower_s w c)) = false.
+Proof.
+  intros lower_s w c Ha Hu Hs Hg. destruct c; try discriminate Hs; cbn [step].
+  - merged_auto.
+  - now apply run_new_merged.
+  - now apply run_refresh_merged.
+  - now apply run_push_merged.
+  - now apply run_pop_merged.
+  - now apply run_goto_merged.
+  - now apply run_float_merged.
+  - now apply run_sink_merged.
+  - now apply run_delete_merged.
+  - now apply run_hide_merged.
+  - now apply run_unhide_merged.
+  - now apply run_rename_merged.
+  - now apply run_commit_merged.
+  - now apply run_uncommit_merged.
+  - now apply run_clean_merged.
+  - now apply run_spill_merged.
+  - unfold run_undo. destruct (n <? 1)%Z; [exact Hu|now apply run_undo_like_merged].
+  - unfold run_redo. destruct (n =? 0)%N; [exact Hu|]. destruct (isize_max <? n)%N; [exact Hu|].
+    now apply run_undo_like_merged.
+  - now apply run_reset_merged.
+  - now apply run_repair_merged.
+  - now apply run_log_clear_merged.
+  - now apply run_edit_merged.
+  - now apply run_rebase_merged.
+  - now apply run_squash_merged.
+  - now apply run_pick_merged.
+  - merged_auto.
+Qed.
+
+Lemma config_disallow_session :
+  forall lower_s cs w,
+    forallb (fun c => is_stg c && no_explicit_allow c) cs = true ->
+    w_apc w = false -> w_unmerged w = false -> w_unmerged (run lower_s w cs) = false.
+Proof.
+  intros lower_s. induction cs as [|c cs IH]; intros w Hall Ha Hu; [exact Hu|].
+  cbn [forallb] in Hall. apply andb_true_iff in Hall as [Hc Hall].
+  apply andb_true_iff in Hc as [Hs Hg].
+  unfold run. cbn [fold_left]. apply IH; [exact Hall| |].
+  - rewrite stg_keeps_config; assumption.
+  - now apply config_disallow_keeps_index_merged.
 Qed.
 
 (* Model/Cmd.v leaves N_scope open and Gen/CmdTable.v string_scope; the statements of
